@@ -930,7 +930,7 @@ def reraise_watchdog(exc: BaseException) -> None:
 class Edge:
     __slots__ = (
         "subject", "parent", "child", "called", "args", "ret", "applied", "pre_flat", "pre_fams", "post_flat",
-        "post_fams", "snap", "clone_exc", "call_exc", "state_exc", "pattern", "script", "arity", "step",
+        "post_fams", "snap", "clone_exc", "call_exc", "state_exc", "pattern", "script", "arity", "step", "parent_changed",
     )
 
     def __init__(self, **kw):
@@ -999,6 +999,14 @@ def drive_edge(subject, parent, name: Optional[str], args: Optional[Dict[str, An
         e.post_flat, e.post_fams = flat_state(child)
     except Exception as exc:
         e.state_exc = exc
+    if clone and e.pre_flat is not None:
+        # mutating the clone must leave the PARENT's constructor description alone (pre_flat was taken from the fresh
+        # clone, i.e. it is also the parent's description at that moment)
+        try:
+            pf, _ = flat_state(parent)
+            e.parent_changed = sorted(k for k in set(pf) | set(e.pre_flat) if pf.get(k) != e.pre_flat.get(k))
+        except Exception:
+            e.parent_changed = None
     return e
 
 
